@@ -314,11 +314,17 @@ pub fn records(rng: &mut Rng, cfg: &Cfg) -> Vec<Rec> {
                         };
                         out.push(Rec::Atom(a));
                         serial = if serial == 99_999 { 0 } else { serial + 1 };
+                        // after a wrap the column may run up to its end again: a second wrap (the offsets add up)
+                        if cfg.wraps && serial == 2 && r.chance(1, 2) {
+                            serial = 99_998;
+                        }
                     }
                 }
                 // mostly ascending numbers; some chains count down or jump about (order of first appearance, not of the numbers),
                 // and a residue may keep the number of the one before (another insertion code, or the parent after its insertion)
-                resnum = if resnum >= 9_000 || order_mode < 2 {
+                resnum = if cfg.wraps && resnum == 1 && r.chance(1, 2) {
+                    9_998
+                } else if resnum >= 9_000 || order_mode < 2 {
                     if resnum == 9_999 { 0 } else { resnum + 1 }
                 } else if order_mode == 2 {
                     resnum - 1 - r.below(2) as isize
